@@ -21,7 +21,10 @@
 use std::collections::HashMap;
 
 use libp2p_identity::PeerId;
+#[cfg(not(libp2p_verif))]
 use web_time::Instant;
+#[cfg(libp2p_verif)]
+use crate::verif::Instant;
 
 use crate::{MessageId, ValidationError, peer_score::RejectReason};
 
